@@ -25,7 +25,7 @@ func init() {
 		Assumptions: []string{"tolerances 1e-9*M for positions, (1+1e-12) relative for gap lengths and half-steps, fixed in DESIGN.md",
 			"Simplify: some embedding of the result as a subsequence must satisfy the distance bound (vertex lists may contain duplicates)"},
 		MinNontrivial:    500,
-		RequiredMonitors: []string{"densify-subsequence", "densify-on-segment", "densify-gap", "simplify-subsequence", "simplify-distance", "simplify-valid", "interp-finite", "interp-position", "interp-zm", "evenly-spaced", "snap-odd", "snap-bound", "snap-finite", "snap-idem", "reverse-involution", "reverse-valid", "orient-holds", "orient-idem"},
+		RequiredMonitors: []string{"densify-subsequence", "densify-on-segment", "densify-gap", "simplify-subsequence", "simplify-distance", "simplify-valid", "interp-finite", "interp-position", "interp-zm", "evenly-spaced", "snap-odd", "snap-bound", "snap-finite", "snap-idem", "reverse-involution", "reverse-valid", "orient-holds", "orient-idem", "concrete-entry"},
 		Run:              runAll,
 	})
 }
@@ -85,6 +85,7 @@ func densify(k *run.K, g geom.Geometry, t model.Tree, M float64) {
 	if k.Lib("nopanic", func() { r = g.Densify(d) }) {
 		return
 	}
+	shared.ConcreteAgree(k, g, "concrete-entry", []shared.Call{{Method: "Densify", Args: []any{d}}}, nil)
 	rt := treeOf(r)
 	k.Check("densify-subsequence", rt.CT == t.CT && rt.Type == t.Type, "Densify(%g) changed type/coordinate type: %v/%v -> %v/%v", d, t.Type, t.CT, rt.Type, rt.CT)
 	tol := 1e-9 * M
@@ -249,6 +250,7 @@ func simplify(k *run.K, g geom.Geometry, t model.Tree, M float64, lattice bool) 
 	if k.Lib("nopanic", func() { r, err = g.Simplify(th) }) {
 		return
 	}
+	shared.ConcreteAgree(k, g, "concrete-entry", []shared.Call{{Method: "Simplify", Args: []any{th}}}, nil)
 	if err != nil {
 		k.Check("simplify-valid", true, "")
 		k.Count("simplify_errors", 1)
@@ -570,6 +572,9 @@ func reverseAndOrient(k *run.K, g geom.Geometry, t model.Tree, valid bool) {
 		return
 	}
 	k.Check("reverse-involution", model.Equal(treeOf(rr), t), "Reverse(Reverse(g)) != g: %s", model.Diff(treeOf(rr), t))
+	shared.ConcreteAgree(k, g, "concrete-entry", []shared.Call{{Method: "Reverse"}, {Method: "ForceCW"}, {Method: "ForceCCW"}, {Method: "IsCW"}, {Method: "IsCCW"},
+		{Method: "SnapToGrid", Args: []any{k.Rng.Range(-2, 3)}}}, nil)
+	shared.ConcreteAgree(k, r, "concrete-entry", []shared.Call{{Method: "ForceCW"}, {Method: "ForceCCW"}, {Method: "IsCW"}, {Method: "IsCCW"}}, nil)
 	same := curves(t, treeOf(r), func(b, a model.Tree) bool {
 		d := b.CT.Dimension()
 		ob, oa := split(b.Coords, d), split(a.Coords, d)
